@@ -39,7 +39,9 @@ META = {
     "budget_s": {"quick": 120, "thorough": 900},
 }
 
-NAME_ALPHABET = "abcdefgXYZ0123456789 _-.;!?/\\'\"()<>=+*&^%$#@~|éü²³٣中"
+# the last characters are the line boundaries of str.splitlines() other than \n and \r (vertical tab, form feed, the
+# separators FS / GS / RS, NEL, LINE and PARAGRAPH SEPARATOR): ordinary characters for a reader that splits on "\n"
+NAME_ALPHABET = "abcdefgXYZ0123456789 _-.;!?/\\'\"()<>=+*&^%$#@~|éü²³٣中\x0b\x0c\x1c\x1d\x1e\x85\u2028\u2029"
 
 
 WORDS = ["HLA", "DRB6", "a", "b8", "x", "gene", "7", "NF", "kB", "Z"]
